@@ -25,6 +25,18 @@ import extract  # noqa: E402
 CXX = os.environ.get('VERIF_CXX', 'g++')
 BASE_FLAGS = ['-std=gnu++17', '-O1', '-g', '-fsanitize=address,undefined', '-fno-sanitize-recover=all',
               '-fno-omit-frame-pointer', '-DOPENTELEMETRY_ABI_VERSION_NO=1', '-Wno-deprecated-declarations']
+# side mode of tools/covaudit.py ONLY (never set in a check run): harnesses are built with gcov instrumentation, -O0 and
+# without sanitizers into their own object cache, so that the normal objects / binaries are not disturbed
+COV = os.environ.get('VERIF_COVERAGE') == '1'
+COV_DIR = os.environ.get('VERIF_COVERAGE_DIR') or os.path.join(CACHE, 'covobj')
+COV_KEEP_INLINE = os.environ.get('VERIF_COVERAGE_KEEP_INLINE', '1') == '1'
+
+
+def _cov_flags(flags, keep_inline=False):
+    out = [f for f in flags if not (f in ('-O1', '-O2') or f.startswith('-fsanitize') or f.startswith('-fno-sanitize'))]
+    return out + ['-O0', '--coverage', '-fprofile-abs-path'] + (['-fkeep-inline-functions'] if keep_inline else [])
+
+
 SAN_ENV = {'ASAN_OPTIONS': 'detect_leaks=0:abort_on_error=0:exitcode=99:allocator_may_return_null=1',
            'UBSAN_OPTIONS': 'print_stacktrace=1:halt_on_error=1:exitcode=98'}
 
@@ -107,6 +119,8 @@ def _run(cmd, **kw):
 
 def _compile_obj(src_abs, flags, incs):
     """content-addressed: key = sha256(preprocessed TU + flags)"""
+    if COV:
+        return _compile_obj_cov(src_abs, flags, incs)
     os.makedirs(os.path.join(CACHE, 'obj'), exist_ok=True)
     cmd = [CXX] + flags + incs
     pp = subprocess.run(cmd + ['-E', '-P', src_abs], stdout=subprocess.PIPE, stderr=subprocess.PIPE)
@@ -124,8 +138,33 @@ def _compile_obj(src_abs, flags, incs):
     return obj, False
 
 
+def _compile_obj_cov(src_abs, flags, incs):
+    """coverage side mode: same content addressing, objects (+ .gcno / .gcda beside them) under COV_DIR; compiled straight
+    to the final name because gcc derives the .gcno / .gcda names from the output name"""
+    os.makedirs(COV_DIR, exist_ok=True)
+    cmd = [CXX] + flags + incs
+    pp = subprocess.run(cmd + ['-E', '-P', src_abs], stdout=subprocess.PIPE, stderr=subprocess.PIPE)
+    if pp.returncode != 0:
+        raise BuildError(f'preprocess {src_abs}:\n' + pp.stderr.decode(errors='replace')[-4000:])
+    key = hashlib.sha256(pp.stdout + b'\0' + ' '.join(flags).encode()).hexdigest()[:32]
+    obj = os.path.join(COV_DIR, key + '.o')
+    if os.path.exists(obj) and os.path.exists(obj[:-2] + '.gcno'):
+        return obj, True
+    r = _run(cmd + ['-c', src_abs, '-o', obj])
+    if r.returncode != 0:
+        for f in (obj, obj[:-2] + '.gcno'):
+            if os.path.exists(f):
+                os.remove(f)
+        raise BuildError(f'compile {src_abs}:\n' + r.stderr[-6000:])
+    with open(obj[:-2] + '.src', 'w') as f:
+        f.write(src_abs + '\n')
+    return obj, False
+
+
 def build_harness(h: Harness, repo=None):
     repo = repo or REPO
+    if COV:
+        return _build_harness_cov(h, repo)
     incs = ['-I' + os.path.join(repo, i) for i in h.includes] + ['-I' + os.path.join(VERIF, 'harness')]
     jobs = [(os.path.join(VERIF, s), BASE_FLAGS + h.flags) for s in h.srcs]
     jobs += [(os.path.join(repo, s), BASE_FLAGS + h.flags + h.sdk_flags) for s in h.sdk_srcs]
@@ -153,6 +192,35 @@ def build_harness(h: Harness, repo=None):
             raise BuildError('link:\n' + r.stderr[-4000:])
         os.replace(tmp, exe)
     log(f'harness {h.name}: {sum(1 for _, c in res if c)}/{len(res)} objects cached, {time.time() - t0:.1f}s')
+    return exe
+
+
+def _build_harness_cov(h, repo):
+    incs = ['-I' + os.path.join(repo, i) for i in h.includes] + ['-I' + os.path.join(VERIF, 'harness')]
+    jobs = [(os.path.join(VERIF, s), _cov_flags(BASE_FLAGS + h.flags, COV_KEEP_INLINE)) for s in h.srcs]
+    jobs += [(os.path.join(repo, s), _cov_flags(BASE_FLAGS + h.flags + h.sdk_flags)) for s in h.sdk_srcs]
+    jobs += [(os.path.join(VERIF, s), _cov_flags(BASE_FLAGS)) for s in h.plain_srcs]
+    jobs += [(os.path.join(VERIF, 'harness', 'cov_exit.cc'), ['-O0', '-g'])]     # __wrap__exit: flush counters before _exit
+    t0 = time.time()
+    with ThreadPoolExecutor(max_workers=16) as ex:
+        futs = [ex.submit(_compile_obj, s, f, incs) for s, f in jobs]
+        res, errs = [], []
+        for f in futs:
+            try:
+                res.append(f.result())
+            except BuildError as e:
+                errs.append(str(e))
+        if errs:
+            raise BuildError('\n'.join(errs))
+    objs = [o for o, _ in res]
+    key = hashlib.sha256((' '.join(objs) + ' '.join(h.libs)).encode()).hexdigest()[:24]
+    os.makedirs(os.path.join(COV_DIR, 'bin'), exist_ok=True)
+    exe = os.path.join(COV_DIR, 'bin', f'{h.name}-{key}')
+    if not os.path.exists(exe):
+        r = _run([CXX, '-O0', '-g', '--coverage', '-Wl,--wrap=_exit'] + objs + h.libs + ['-o', exe])
+        if r.returncode != 0:
+            raise BuildError('link:\n' + r.stderr[-4000:])
+    log(f'harness {h.name} (coverage build): {sum(1 for _, c in res if c)}/{len(res)} objects cached, {time.time() - t0:.1f}s')
     return exe
 
 
